@@ -168,13 +168,19 @@ func cloneValue(rv reflect.Value) reflect.Value {
 		}
 		n := reflect.MakeSlice(rv.Type(), rv.Len(), rv.Len())
 		ek := rv.Type().Elem().Kind()
-		if isNumKind(ek) || ek == reflect.String {
+		if isNumKind(ek) {
 			reflect.Copy(n, rv)
 			return n
 		}
 		for i := 0; i < rv.Len(); i++ {
 			n.Index(i).Set(cloneValue(rv.Index(i)))
 		}
+		return n
+	case reflect.String:
+		// a real copy of the bytes: a snapshot must not share memory with a string that (in a
+		// broken tree) points into a buffer's backing array
+		n := reflect.New(rv.Type()).Elem()
+		n.SetString(strings.Clone(rv.String()))
 		return n
 	default:
 		return rv
@@ -384,9 +390,9 @@ func drawCfg(t *Tape, thorough bool) GenCfg {
 		c.ListCap = 1
 	case li < 65:
 		c.ListCap = 3
-	case li < 88:
+	case li < 90:
 		c.ListCap = 17
-	case li < 97:
+	case li < 99:
 		c.ListCap = 300
 	default:
 		c.ListCap = 65535
@@ -399,7 +405,7 @@ func drawCfg(t *Tape, thorough bool) GenCfg {
 		c.StrCap = 4
 	case si < 80:
 		c.StrCap = 40
-	case si < 96:
+	case si < 98:
 		c.StrCap = 600
 	default:
 		c.StrCap = 70000
